@@ -29,18 +29,19 @@ def sugar_table(p1, p2, inp=(True, True, True, True), vs_on=True):
             return dict(id=73, name=[ord(c) for c in treegen.render(pat)], pat=pat, leaf=False, meta=[], ptr="member" if present[j] else "null", enabledby=0,
                         sub=dict(dflt=False, ports=[leaf(81, "w", ["", "i"])]))
         pat = dict(segs=[L("arr%d/" % i)], types=dict(has=False, alts=[]))
-        return dict(id=7, name=[ord(c) for c in treegen.render(pat)], pat=pat, leaf=False, meta=[], ptr="member", enabledby=0,
+        return dict(id=8, name=[ord(c) for c in treegen.render(pat)], pat=pat, leaf=False, meta=[], ptr="member", enabledby=0,
                     sub=dict(dflt=False, ports=[leaf(71, "u", ["", "i"]), leaf(72, "v", ["", "i"]), inp(0), inp(1)]))
     return dict(dflt=False, ports=[
-        leaf(1, "x", ["", "i"]), leaf(2, "en", ["", "T", "F"], treegen.meta_bytes([("toggle", None)])),
-        sub(3, [L("m/")], 30, enabledby=2), leaf(4, "m", [""]),
-        sub(5, [L("p1/")], 50, ptr="member" if p1 else "null"), sub(6, [L("p2/")], 60, ptr="member" if p2 else "null"),
+        leaf(1, "x", ["", "i"]), leaf(2, "en_x", ["", "T", "F"], treegen.meta_bytes([("toggle", None)])),        # a look-alike of the enabling toggle, declared before it, always saying the opposite
+        leaf(3, "en", ["", "T", "F"], treegen.meta_bytes([("toggle", None)])),
+        sub(4, [L("m/")], 30, enabledby=3), leaf(5, "m", [""]),
+        sub(6, [L("p1/")], 50, ptr="member" if p1 else "null"), sub(7, [L("p2/")], 60, ptr="member" if p2 else "null"),
         arr_elem(0, inp[0:2]), arr_elem(1, inp[2:4]),
-        sub(8, [L("first/")], 90), leaf(9, "first", [""]),      # a member sub-tree at offset 0 of the application object
+        sub(9, [L("first/")], 90), leaf(10, "first", [""]),      # a member sub-tree at offset 0 of the application object
         # a sub-tree whose own table carries rSelf(..., rEnabledBy(on)): switched off, the walk reports its enabling port only
-        dict(id=10, name=[ord(c) for c in "vs/"], pat=dict(segs=[L("vs/")], types=dict(has=False, alts=[])), leaf=False, meta=[], ptr="member", enabledby=0,
-             sub=dict(dflt=False, selfen=102, ports=[leaf(101, "self", [""]), leaf(102, "on", ["", "T", "F"], treegen.meta_bytes([("toggle", None)])), leaf(103, "q", ["", "i"])])),
-        leaf(11, "vs", [""])])
+        dict(id=11, name=[ord(c) for c in "vs/"], pat=dict(segs=[L("vs/")], types=dict(has=False, alts=[])), leaf=False, meta=[], ptr="member", enabledby=0,
+             sub=dict(dflt=False, selfen=103, ports=[leaf(101, "self", [""]), leaf(102, "on_count", ["", "i"]), leaf(103, "on", ["", "T", "F"], treegen.meta_bytes([("toggle", None)])), leaf(104, "q", ["", "i"])])),
+        leaf(12, "vs", [""])])
 
 
 def run_walk(ctx, inputs, tag, mode="walk"):
@@ -110,7 +111,7 @@ def run(ctx):
         inputs.append(dict(table=tb, rt=False, multi=multi, state={t: True for t in treegen_all_toggles(tb)}))
     n += run_walk(ctx, inputs, "random")
     # the same walk over an application built with the library's own sub-tree macros, in every state of its two pointers and its enabling toggle
-    sug = [dict(table=sugar_table(p1, p2, inp, vs_on), rt=rt, p1=p1, p2=p2, en=en, vs_on=vs_on, inp=list(inp), state={2: en, 102: vs_on}) for p1 in (False, True) for p2 in (False, True) for en in (False, True)
+    sug = [dict(table=sugar_table(p1, p2, inp, vs_on), rt=rt, p1=p1, p2=p2, en=en, vs_on=vs_on, inp=list(inp), state={3: en, 103: vs_on}) for p1 in (False, True) for p2 in (False, True) for en in (False, True)
            for rt in (False, True) for inp in itertools.product([False, True], repeat=4) for vs_on in ((False, True) if inp[0] == inp[3] else (p1 != en,))]
     n += run_walk(ctx, sug, "sugar", mode="walksugar")
     ctx.notes["sugar_application_states_walked"] = len(sug)
